@@ -425,11 +425,13 @@ ParseTPClause(m, ev) ==
   ELSE IF q.rep # DateRep(g.dform) THEN "representation"
   ELSE IF q.y # ExpYear(g) THEN "year"
   ELSE IF q.a # ExpA(g) \/ q.b # ExpB(g) THEN "date-fields"
-  ELSE IF q.prec # ExpPrec(g) THEN "precision-form"
-  ELSE IF q.hh # ExpH(g) THEN "hour"
-  ELSE IF q.prec # "h" /\ q.mi # ExpM(g) THEN "minute"
-  ELSE IF q.prec = "hms" /\ q.ss # ExpS(g) THEN "second"
-  ELSE IF Len(g.ds) = 0 /\ q.fu # 0 THEN "fraction-from-nowhere"
+  \* without a decimal only the time of day is pinned (how the point stores it internally is the library's business);
+  \* with a decimal the precision form must be the written one - the text has to be reproduced from it
+  ELSE IF Len(g.ds) = 0 /\ ~(q.sod = ExpH(g) * 3600 + ExpM(g) * 60 + ExpS(g) /\ q.us = 0 /\ q.fu = 0) THEN "time-of-day"
+  ELSE IF Len(g.ds) > 0 /\ q.prec # ExpPrec(g) THEN "precision-form"
+  ELSE IF Len(g.ds) > 0 /\ q.hh # ExpH(g) THEN "hour"
+  ELSE IF Len(g.ds) > 0 /\ q.prec # "h" /\ q.mi # ExpM(g) THEN "minute"
+  ELSE IF Len(g.ds) > 0 /\ q.prec = "hms" /\ q.ss # ExpS(g) THEN "second"
   ELSE IF Len(g.ds) > 0 /\ ~(q.fu - Micro6(g.ds) \in 0..1) THEN "decimal-fraction"
   ELSE IF <<q.zh, q.zm>> # z THEN "offset"
   \* text reproduction: decimals of up to 6 digits up to trailing zeros
